@@ -214,7 +214,7 @@ func (s *Service) attestationData(ctx context.Context,
 	}
 }
 
-func (*Service) attestationDataLoop1(ctx context.Context,
+func (s *Service) attestationDataLoop1(ctx context.Context,
 	started time.Time,
 	requests int,
 	attestationDataResponses map[phase0.Root][]*attestationDataResponse,
@@ -232,9 +232,14 @@ func (*Service) attestationDataLoop1(ctx context.Context,
 	responded := 0
 	errored := 0
 	largestCount := 0
-	strictMajority := requests/2 + 1
+	// We can stop early once a response has a strict majority, as long as
+	// that also meets the configured threshold.
+	requiredCount := requests/2 + 1
+	if s.threshold > requiredCount {
+		requiredCount = s.threshold
+	}
 
-	for responded+errored != requests && largestCount < strictMajority {
+	for responded+errored != requests && largestCount < requiredCount {
 		select {
 		case resp := <-respCh:
 			responded++
@@ -282,7 +287,7 @@ func (*Service) attestationDataLoop1(ctx context.Context,
 	return responded, errored
 }
 
-func (*Service) attestationDataLoop2(ctx context.Context,
+func (s *Service) attestationDataLoop2(ctx context.Context,
 	started time.Time,
 	requests int,
 	attestationDataResponses map[phase0.Root][]*attestationDataResponse,
@@ -301,9 +306,14 @@ func (*Service) attestationDataLoop2(ctx context.Context,
 			largestCount = v
 		}
 	}
-	strictMajority := requests/2 + 1
+	// We can stop early once a response has a strict majority, as long as
+	// that also meets the configured threshold.
+	requiredCount := requests/2 + 1
+	if s.threshold > requiredCount {
+		requiredCount = s.threshold
+	}
 
-	for responded+errored != requests && largestCount < strictMajority {
+	for responded+errored != requests && largestCount < requiredCount {
 		select {
 		case resp := <-respCh:
 			responded++
